@@ -324,7 +324,28 @@ def rule_fixed_positions(ctx):
               "they are not the likelihood of the recorded genotypes " + detail, f.where(scattered[0].node))
 
 
+def rule_mock_read(ctx):
+    """DenovoMCMC.fit replaces an empty read set by one all-nan read.  The counts handed on with it must not be the caller's (empty)
+    count array: the jitted likelihood indexes counts by read and has no bounds check, so the recorded llk would be a product of
+    unrelated memory (defect R: four identical fits of a sample without reads gave -0.0104, -0.0156, -2.5e-06, -0.0104)."""
+    fq = 'mchap.assemble.mcmc.DenovoMCMC.fit'
+    f = ctx.func(fq)
+    r = ctx.recon(fq)
+    calls = [c for c, _, _ in r.calls if c[1].endswith('DenovoMCMC._mcmc')]
+    ctx.need(len(calls) == 1, f"{fq}: one call of _mcmc expected")
+    kw = dict(calls[0][3])
+    reads, counts = kw.get('reads'), kw.get('read_counts')
+    # reads is phi(no reads, mock, param); the counts must be decided by the same condition and not be the parameter on the mock arm
+    ok = reads is not None and counts is not None and reads[0] == 'phi' and counts[0] == 'phi' and reads[1] == counts[1]
+    if ok:
+        mock_arm = 3 if reads[2] == ('param', 'reads') else 2
+        ok = not any(x == ('param', 'read_counts') for x in walk(counts[mock_arm]))
+    ctx.check(ok, 'R09.7/mock-read-counts', f.construct('read_counts'), "the mock read of an empty read set is not paired with the caller's empty count array",
+              "with an empty read set the single mock read is passed on together with the caller's (empty) read_counts, which the jitted likelihood indexes out of bounds", f.where())
+
+
 def run(ctx):
+    rule_mock_read(ctx)
     rule_fixed_positions(ctx)
     rule_linear_threading(ctx)
     rule_key_value(ctx)
